@@ -82,3 +82,11 @@ Definition is_kind (k : alloc_kind) (name : string) : bool :=
   end.
 Definition branch_has (k : alloc_kind) (b : string * list string) : bool := existsb (is_kind k) (snd b).
 Definition branches_with (k : alloc_kind) : list string := map fst (filter (branch_has k) parse_calls).
+
+(* the log statements on Parse's path with the level that guards them (function, guard, message); kind "logs" *)
+Definition parse_logs : list (string * string * string) :=
+  [ ("findOrCreateHostWithLock", "always", "error_mac_address_differ_-_duplicated_IP?")
+  ; ("onlineTransition", "info", "IP_is_offline")
+  ; ("onlineTransition", "info", "IP_is_online") ].
+Definition show_logs : string :=
+  join "," (map (fun r => match r with (f, g, m) => f ++ ":" ++ g ++ ":" ++ m end) parse_logs).
